@@ -50,6 +50,12 @@ func childMembers(args []string) {
 		script = args[3]
 	}
 	rng := NewRng(seed)
+	if script == "" {
+		// corpus: the leader joined after the only snapshot it holds. Node 1 compacts while alone; 2 joins and
+		// is made leader; 3 (then 4) joins: it knows 2 from the handshake and is then sent node 2's stored
+		// snapshot, whose book lists node 1 alone. It must keep node 2's address, or it can never answer it.
+		membersTrial(cout, NewRng(7), 0, thorough, "compact,join,campaign,join,join,propose")
+	}
 	for t := 0; t < trials; t++ {
 		membersTrial(cout, rng.Fork(), t, thorough, script)
 	}
@@ -384,8 +390,10 @@ func membersTrial(out *childOut, r *Rng, t int, thorough bool, script string) {
 				action = "remove"
 			case k < 50 && len(members) > 1:
 				action = "lag"
-			case k < 60:
+			case k < 56:
 				action = "propose"
+			case k < 60 && len(members) > 1:
+				action = "campaign"
 			case k < 75:
 				action = "compact"
 			default:
@@ -409,6 +417,27 @@ func membersTrial(out *childOut, r *Rng, t int, thorough bool, script string) {
 			for try := 0; maybe[id] && try < 3; try++ {
 				delete(info, id)
 				join(id, "", true)
+			}
+			check(action)
+		case action == "campaign":
+			// leadership moves to the member that joined last (it holds no snapshot newer than its join)
+			var newest *rsNode
+			for _, n := range c.live() {
+				if _, member := expected[n.id]; member && !maybe[n.id] && (newest == nil || n.id > newest.id) {
+					newest = n
+				}
+			}
+			if l := c.leader(); newest != nil && l != nil && l.id != newest.id {
+				// only a node that has applied its own membership entry may be told to campaign (raft's own
+				// timer checks that; the hook does not): wait until it has caught up with the leader
+				target := l.g.VerifStatus().Commit
+				if waitFor(5*time.Second, func() bool { return newest.g.VerifStatus().Applied >= target }) {
+					newest.g.VerifCampaign()
+					ok := waitFor(5*time.Second, func() bool { l := c.leader(); return l != nil && l.id == newest.id })
+					out.Local("campaign %d -> leader: %v", newest.id, ok)
+				} else {
+					out.Local("campaign %d skipped: it has not caught up with the leader", newest.id)
+				}
 			}
 			check(action)
 		case action == "remove":
